@@ -297,6 +297,53 @@ def mol_graph(smiles):
     return _MOLG[smiles]
 
 
+_MG_CFGS = [(False, False), (True, True), (False, True)]      # (drop_non_aam, use_index_as_atom_map)
+_MREC = {}
+
+
+def mol_record(smiles):
+    """what MolToGraph.transform reads from the sanitised RDKit molecule (input of the model), or None"""
+    if smiles not in _MREC:
+        from rdkit import Chem
+        rec = None
+        try:
+            mol = Chem.MolFromSmiles(smiles, sanitize=False)
+            if mol is not None:
+                Chem.SanitizeMol(mol)
+                rec = {"atoms": [[a.GetSymbol(), bool(a.GetIsAromatic()), int(a.GetTotalNumHs()), int(a.GetFormalCharge()),
+                                  int(a.GetAtomMapNum())] for a in mol.GetAtoms()],
+                       "bonds": [[b.GetBeginAtomIdx(), b.GetEndAtomIdx(), _half(b.GetBondTypeAsDouble())] for b in mol.GetBonds()]}
+        except Exception:
+            rec = None
+        _MREC[smiles] = rec
+    return _MREC[smiles]
+
+
+def _mg_obs(smiles):
+    """MolToGraph.transform (through smiles_to_graph) and the RWMol GraphToMol builds from it, before sanitisation"""
+    from synkit.IO.chem_converter import smiles_to_graph
+    from synkit.IO.graph_to_mol import GraphToMol
+    out = []
+    for d, u in _MG_CFGS:
+        G = smiles_to_graph(smiles, drop_non_aam=d, use_index_as_atom_map=u)
+        try:
+            rw = GraphToMol().graph_to_mol(G, sanitize=False, use_h_count=True)
+            wm = [[[[a.GetSymbol(), int(a.GetFormalCharge()), int(a.GetAtomMapNum()),
+                     [int(a.GetNumExplicitHs())] if a.GetNoImplicit() else []] for a in rw.GetAtoms()],
+                   S([[min(b.GetBeginAtomIdx(), b.GetEndAtomIdx()), max(b.GetBeginAtomIdx(), b.GetEndAtomIdx()),
+                       _half(b.GetBondTypeAsDouble())] for b in rw.GetBonds()])]]
+        except Exception:
+            wm = []
+        out.append([gr_ord_obs(G), wm])
+    return out
+
+
+def enc_mol(rec):
+    atoms = clist(["(RAt %s %s %s %s %s)" % (enc_str(a[0]), cbool(a[1]), cZ(a[2]), cZ(a[3]), cZ(a[4])) for a in rec["atoms"]])
+    bonds = clist(["(%s, %s, %s)" % (cN(b[0]), cN(b[1]), cZ(b[2])) for b in rec["bonds"]])
+    return "(%s, %s)" % (atoms, bonds)
+
+
 _RXG = {}
 
 
@@ -373,7 +420,7 @@ def impl(case):
         g = mol_graph(case["smiles"])
         if g is None:
             return ["NOGRAPH"]
-        return _hx_obs(to_nx(g), None, False)
+        return [_hx_obs(to_nx(g), None, False), _mg_obs(case["smiles"])]
     if k == "parse":
         return parsed_obs(rec_to_text(case["rec"]))
     if k == "transform":
@@ -428,7 +475,11 @@ def coq_case(case):
             g = mol_graph(case["smiles"])
             if g is None:
                 return None
-            return "run_hx3 %s None false" % enc_gr(g)
+            rec = mol_record(case["smiles"])
+            if rec is None:
+                return None
+            return "(let m := %s in L [run_hx3 %s None false; L [%s]])" % (
+                enc_mol(rec), enc_gr(g), "; ".join("run_molgraph m %s %s" % (cbool(d), cbool(u)) for d, u in _MG_CFGS))
         if k == "parse":
             return "run_parse %s" % enc_rec(case["rec"])
         if k == "transform":
@@ -801,6 +852,8 @@ def distribution(cases, obss):
             d["mol_sources"][c.get("src", "?")] = d["mol_sources"].get(c.get("src", "?"), 0) + 1
         if k == "label":
             d["charged_labels"] += sum(1 for x in c["charges"] if x)
+        if k == "mol" and isinstance(o, list) and len(o) == 2:
+            o = o[0]
         if k in ("hx", "mol") and isinstance(o, list) and len(o) == 4:
             d["h_dom"][str(bool(o[0][4]))] = d["h_dom"].get(str(bool(o[0][4])), 0) + 1
             if o[2]:
